@@ -163,6 +163,7 @@ func checkRejectedSafe(c panicCase) (err error) {
 func TestC02Rejected(t *testing.T) {
 	r := hx.Start(t, "C02")
 	defer r.Finish(t)
+	r.Rule("rejected_element: plausible programs holding one element jennifer is documented to reject by panicking when rendered (Lit / LitFunc of a struct, slice, map, pointer, nil; a Dict beside other items in Values), inside a list of the program or as a declaration; File.Render (formatted, NoFormat, a second time), Statement.Render / RenderWithFile, Group.Render / RenderWithFile: a documented panic or an error without bytes written is fine, nil with bytes that are not Go is a violation")
 	hx.Rapid(r, t, hx.Check[panicCase]{Name: "rejected_element", Fn: checkRejectedSafe}, r.N(600, 6000), func(rt *rapid.T) panicCase {
 		f := gen.FileSettings(rt)
 		n := rapid.IntRange(1, 3).Draw(rt, "ndecls")
